@@ -92,6 +92,8 @@ def REQUIRED_REACH(tier):
 
 
 FUNCS = ("vxprobes.probe", "vxprobes.probe_a", "vxprobes.probe_b")
+# configured values that are easy to lose on the way to the model: null, zero, empty text, False, an empty list
+EXTRA_ARGS = {"opt": None, "z": 0, "e": "", "f": False, "l": []}
 
 
 def _hook(d, tag, kwargs, rec):
@@ -126,7 +128,7 @@ def _pipeline(specs, via):
         by_group.setdefault(s["group"], []).append(s)
     init = {"name": "init", "func": "vxprobes.init_buckets"}
     if via == "python":
-        kw = {g: [ModelFunction(func=s["func"], name=s["name"], arguments={"tag": [s["group"], s["pos"]], "a": s["a"], "b": s["b"]}, enabled=s["enabled"]) for s in lst]
+        kw = {g: [ModelFunction(func=s["func"], name=s["name"], arguments={"tag": [s["group"], s["pos"]], "a": s["a"], "b": s["b"], **EXTRA_ARGS}, enabled=s["enabled"]) for s in lst]
               for g, lst in by_group.items()}
         kw["scene_generation"] = [ModelFunction(**init)] + kw.get("scene_generation", [])
         return DetectionPipeline(**kw)
@@ -137,7 +139,7 @@ def _pipeline(specs, via):
         keys = keys[1:] + keys[:1]
     dct = {}
     for g in keys:
-        dct[g] = [{"name": s["name"], "func": s["func"], "enabled": s["enabled"], "arguments": {"tag": [s["group"], s["pos"]], "a": s["a"], "b": s["b"]}} for s in by_group[g]]
+        dct[g] = [{"name": s["name"], "func": s["func"], "enabled": s["enabled"], "arguments": {"tag": [s["group"], s["pos"]], "a": s["a"], "b": s["b"], **EXTRA_ARGS}} for s in by_group[g]]
     dct["scene_generation"] = [init] + (dct.get("scene_generation") or [])
     # absent groups given explicitly as None / [] in the mapping
     for g in CANON:
@@ -224,7 +226,8 @@ def order(layout, readouts, debug, via, mode):
         for r, (st, s) in zip(trace, exp):
             kw = r["kwargs"]
             a_want = swept[1] if (swept is not None and s is swept[0]) else s["a"]
-            ok += [set(kw) == {"a", "b"}, kw.get("a") == a_want, kw.get("b") == s["b"]]
+            ok += [set(kw) == {"a", "b"} | set(EXTRA_ARGS), kw.get("a") == a_want, kw.get("b") == s["b"]]
+            ok += [k in kw and type(kw[k]) is type(v) and kw[k] == v for k, v in EXTRA_ARGS.items()]
         vx.prove(f"C01/kwargs_exact/{lab}", vx.all_of(ok))
         # run_mode works on the detector it was given (exposure) / on a private copy of it (observation runs)
         ids = {r["detector_id"] for r in trace}
@@ -252,7 +255,7 @@ def _concrete_calls(kwargs, inp):
     first = None
     for g, n in layout:
         for k in range(n):
-            mf = ModelFunction(func=FUNCS[(g + k) % 3], name=f"m{g}_{k}", arguments={"tag": [CANON[g], k], "a": int(inp.get(f"a_{g}_{k}", 0)), "b": float(inp.get(f"b_{g}_{k}", 0))},
+            mf = ModelFunction(func=FUNCS[(g + k) % 3], name=f"m{g}_{k}", arguments={"tag": [CANON[g], k], "a": int(inp.get(f"a_{g}_{k}", 0)), "b": float(inp.get(f"b_{g}_{k}", 0)), **EXTRA_ARGS},
                                enabled=bool(inp.get(f"en_{g}_{k}", False)))
             by_group.setdefault(CANON[g], []).append(mf)
             first = first or (CANON[g], mf)
@@ -374,6 +377,8 @@ def replay(oid, kwargs, model, data):
         for (s, t, kw) in calls:
             gi = CANON.index(t[0])
             a = 7 if (kwargs["mode"] != "exposure" and t == first) else int(model.get(f"a_{gi}_{t[1]}", 0))
-            if set(kw) != {"a", "b"} or kw["a"] != a or abs(kw["b"] - float(model.get(f"b_{gi}_{t[1]}", 0))) > 1e-9:
+            if set(kw) != {"a", "b"} | set(EXTRA_ARGS) or kw["a"] != a or abs(kw["b"] - float(model.get(f"b_{gi}_{t[1]}", 0))) > 1e-9:
+                bad = True
+            if any(k not in kw or type(kw[k]) is not type(v) or kw[k] != v for k, v in EXTRA_ARGS.items()):
                 bad = True
     return bad, {"got": got[:12], "want": want[:12]}
